@@ -598,7 +598,8 @@ def execute(sc, ctx):
         if cyc:
             sim.probe("cyclic-alias")
         # (omegaconf's own tree walk gives up far below the interpreter's limit)
-        deep = _has_deep(op, sc, MID_RUN if sc["parser"]["opts"].get("parser_mode") == "omegaconf" else DEEP_RUN)
+        third_party_walk = sc["parser"]["opts"].get("parser_mode") == "omegaconf" or bool({"js", "jn"} & set(sc["parser"].get("feats", [])))  # ... and so do jsonschema's validator and jsonnet
+        deep = _has_deep(op, sc, MID_RUN if third_party_walk else DEEP_RUN)
         if deep:
             sim.probe("deep-nesting")
         ctx.record(kind, o.brief() + ("!" if fired else ""))
